@@ -17,50 +17,40 @@ namespace SpiceEv
 open SpiceEv.Distrib SpiceEv.Frame
 variable {α : Type} [Field α] [LinearOrder α] [IsStrictOrderedRing α]
 
-/-- **No station above its maximum after the complete step.** For any battery obeying `BatLaw`, any connectors,
-station types, sub-strategy choice, `number_cs`, stationary batteries (supporting or simulated as virtual vehicles at
-virtual stations), V2G: if all station maxima (real and virtual) are non-negative, then after `Distributed.step`
-every station's accumulated power is at most its maximum. -/
-theorem C05_distributed_station_upper {B : Type} (dops : DOps α B) (law : BatLaw dops.bat) (de : DEnv α)
-    (hd : de.deps.ps = none) (ho : de.opps.ps = none)
-    (s s' : DState α B) (cmds : List (String × α))
-    (hmax : ∀ st ∈ s.world.stations, 0 ≤ st.maxPower) (hvirt : ∀ st ∈ s.init.virtualCs, 0 ≤ st.maxPower)
-    (h : step dops de s = .ok (s', cmds)) :
-    ∀ st ∈ s'.world.stations, st.currentPower ≤ st.maxPower := by
-  unfold step at h
-  simp only [bind, Except.bind] at h
-  split at h
-  · cases h
-  · rename_i lk _
-    split at h
-    · cases h
-    · rename_i connected _
-      split at h
-      · cases h
-      · rename_i st1 hfold
-        obtain ⟨w1, ini1, c1⟩ := st1
-        simp only at h
-        split at h
-        · cases h
-        · rename_i ids _
-          split at h
-          · cases h
-          · rename_i r hsur
-            obtain ⟨w2, c2⟩ := r
-            simp only [Except.ok.injEq, Prod.mk.injEq] at h
-            obtain ⟨rfl, _⟩ := h
-            have hinv0 : StInv (resetStations s.world, s.init, ([] : List (String × α))) := by
-              refine ⟨?_, hvirt⟩
-              intro st hst
-              unfold resetStations at hst
-              simp only [List.mem_map] at hst
-              obtain ⟨x, hx, rfl⟩ := hst
-              exact ⟨hmax x hx, hmax x hx⟩
-            have hinv1 : StInv (w1, ini1, c1) :=
-              foldlM_inv (stepGc dops de s.numberCs connected lk) StInv
-                (fun st x st' hi hs => stepGc_st dops law de hd ho s.numberCs connected lk st st' x hi hs) _ _ _ hinv0 hfold
-            exact distributeSurplusOn_station dops.bat law de.env w1 w2 ids c2
-              (fun st hst => (hinv1.ok st hst).2) hsur
+/-- **Delegated greedy / balanced step + repair DIST2: no station above its maximum, and the repair is a no-op.**
+For the virtual world of one connector (`⟨[gc], stations, vehicles, batteries⟩`, every station's parent is the
+connector, no entry under a station id at the connector, no battery id is a station id, station maxima ≥ 0): after the
+sub-strategy's step, setting every station's power to its entry at the connector (`syncStations`, fixes/DIST2.diff)
+changes nothing, and every station is at or below its maximum. -/
+theorem C05_distributed_substep_station_upper {B : Type} (rule : Rule) (ops : BatOps α B) (law : BatLaw ops)
+    (env : StratEnv α) (gc : GcS α) (ss : List (StationS α)) (vs : List (VehicleS α B)) (bs : List (StatBatS α B))
+    (vw' : SWorld α B) (cmds : List (String × α))
+    (hmax : ∀ s ∈ ss, 0 ≤ s.maxPower) (hpar : ∀ s ∈ ss, s.parent = gc.id)
+    (hno : ∀ s ∈ ss, (sdGet gc.loads s.id).getD 0 = 0) (hd : ∀ s ∈ ss, ∀ b ∈ bs, s.id ≠ b.id)
+    (h : ruleStep rule ops env ⟨[gc], ss, vs, bs⟩ = .ok (vw', cmds)) :
+    syncStations vw' = vw' ∧ ∀ s ∈ (syncStations vw').stations, s.currentPower ≤ s.maxPower := by
+  obtain ⟨g1, hg1, hid, _, _⟩ := ruleStep_single rule ops env gc ss vs bs vw' cmds h
+  have hb := (ruleStep_booked rule ops law env ⟨[gc], ss, vs, bs⟩ vw' cmds
+    (by
+      intro s hs g hg _
+      simp only [List.mem_cons, List.not_mem_nil, or_false] at hg
+      subst hg; exact hno s hs) (fun s hs b hb => hd s hs b hb) h).1
+  have hp := ruleStep_static (fun s => s.parent = gc.id) (fun s c hs => hs) rule ops env _ vw' cmds hpar h
+  have hnoop := syncStations_noop vw' g1 hg1 hb (fun s hs => (hp s hs).trans hid.symm)
+  refine ⟨hnoop, ?_⟩
+  rw [hnoop]
+  exact C05_greedy_balanced_station rule ops law env _ vw' cmds hmax h
+
+/-- **The final surplus pass keeps every station at or below its maximum** — `clamp_power` reads the station's power,
+which after DIST2 is what was booked for it by the sub-strategy (`C06_distributed_sync_booked`), whatever its class: a
+station that peak_shaving already charged to its maximum is offered nothing more (the defect of the replay
+corpus/S_DISTRIBUTED/dist2_peak_shaving_station_power.json: 7.4 kW at a 3.7 kW station). -/
+theorem C05_distributed_final_pass_upper {B : Type} (ops : BatOps α B) (law : BatLaw ops) (env : StratEnv α)
+    (w w' : SWorld α B) (ids : List String) (cmds' : List (String × α))
+    (hinv : ∀ s ∈ w.stations, s.currentPower ≤ s.maxPower)
+    (h : distributeSurplusOn ops env w ids = .ok (w', cmds')) :
+    ∀ s ∈ w'.stations, s.currentPower ≤ s.maxPower :=
+  distributeSurplusOn_station ops law env w w' ids cmds' hinv h
 
 /-- **Every call of the final surplus pass** (`distribute_surplus_power(surplus_vehicles)`, one call of the body per
 charging-point holder `v`): either nothing changes, or exactly one booking is made — at the station `csId` the
@@ -120,22 +110,7 @@ theorem C05_distributed_final_pass_two_sided_partial {B : Type} (ops : BatOps α
   obtain ⟨⟨b1, _⟩, _, l1⟩ := distributeSurplusOn_sinv ops law env w w' ids cmds' ⟨⟨hb, hd⟩, hm, hl⟩ h
   exact ⟨l1, b1⟩
 
-/-- Non-vacuity of `C05_distributed_station_upper`: `toyState` (11 kW stations) satisfies the hypotheses, the step
-returns, and station CS_v1_opps ends at exactly its 11 kW. -/
-example : ∃ s' cmds, step (toyDOps 5) toyEnv toyState = .ok (s', cmds) ∧
-    ∀ st ∈ s'.world.stations, st.currentPower ≤ st.maxPower := by
-  have hok : (step (toyDOps 5) toyEnv toyState).toBool = true := by decide +kernel
-  cases h : step (toyDOps 5) toyEnv toyState with
-  | error e => rw [h] at hok; cases hok
-  | ok r =>
-    obtain ⟨s', cmds⟩ := r
-    refine ⟨s', cmds, rfl, C05_distributed_station_upper (toyDOps 5) (toyOps_law 5 (by norm_num)) toyEnv rfl rfl toyState s'
-      cmds ?_ ?_ h⟩
-    · intro st hst
-      simp only [toyState, List.mem_cons, List.not_mem_nil, or_false] at hst
-      rcases hst with rfl | rfl <;> norm_num
-    · intro st hst; simp [toyState] at hst
-
+/-- Non-vacuity: after the step on `toyState` both 11 kW stations carry exactly 11 kW. -/
 example : (match step (toyDOps 5) toyEnv toyState with
     | .ok (s', _) => s'.world.stations.map (fun (st : StationS ℚ) => (st.id, st.currentPower, st.maxPower))
     | .error _ => []) = [("CS_v1_opps", 11, 11), ("CS_v2_deps", 11, 11)] := by
